@@ -5,7 +5,8 @@ Engine H over evaluation schedules.  For each of 8 small acyclic models:
          bound by ONE evaluator, on a fresh real model;
   multi  every sequence of (evaluator, cell) up to a length bound with three
          evaluators over the same model (two created up front, one created
-         lazily at its first use, i.e. after the model has been written to);
+         lazily at its first use, i.e. after the model has been written to,
+         and with its own namespace in which SUM and COUNTA are overridden);
   heap   periodic schedules repeated n times: the number of live gc-tracked
          objects and the traced heap size at the ends of periods
          p, 2p, 4p, ... must not grow (a closed loop in the state space must
@@ -92,6 +93,37 @@ def ref_values(spec):
     return _REF[spec.name]
 
 
+def custom_namespace():
+    """The namespace of the third evaluator: SUM and COUNTA answer 1000 more
+    than the built-ins.  Evaluators over one model must not share function
+    bindings (each value is the one its own namespace defines)."""
+    ns = lib.FUNCTIONS.copy()
+
+    def wrap(base):
+        def plus1000(*args):
+            r = base(*args)
+            return r if isinstance(r, lib.ExcelError) else r + 1000
+        return plus1000
+    for name in ('SUM', 'COUNTA'):
+        ns[name] = wrap(lib.FUNCTIONS[name])
+    return ns
+
+
+_REF3 = {}
+
+
+def ref_values_custom(spec, cell):
+    """Value of ``cell`` for a fresh model and a fresh evaluator with the
+    custom namespace, evaluated alone."""
+    k = (spec.name, cell)
+    if k not in _REF3:
+        m = models.build(spec, lib)
+        _REF3[k] = lib.observe(
+            lib.Evaluator(m, namespace=custom_namespace()).evaluate, cell)
+        lib.clear_caches()
+    return _REF3[k]
+
+
 def short(addr):
     return addr.replace('Sheet', 'S')
 
@@ -125,7 +157,7 @@ def run_multi(spec, seq, ctx):
     got = None
     for e, c in seq:
         if evs[e] is None:
-            evs[e] = lib.Evaluator(model)
+            evs[e] = lib.Evaluator(model, namespace=custom_namespace())
         got = lib.observe(evs[e].evaluate, c)
     key = 'C05/%s/multi/%s' % (spec.name, ','.join(
         'E%d:%s' % (e + 1, short(c)) for e, c in seq))
@@ -134,8 +166,12 @@ def run_multi(spec, seq, ctx):
     last = seq[-1][1]
     nontriv = (len(seq) > 1 and last in spec.formulas and
                len({e for e, _ in seq}) > 1)
-    ctx.check(key + '#value', got, ref_values(spec)[last],
-              ['oracle:fresh-value', 'evaluators:several'], inputs, nontriv)
+    want = ref_values(spec)[last] if seq[-1][0] < 2 else \
+        ref_values_custom(spec, last)
+    ctx.check(key + '#value', got, want,
+              ['oracle:fresh-value', 'evaluators:several',
+               'namespace:' + ('default' if seq[-1][0] < 2 else 'custom')],
+              inputs, nontriv)
     ctx.check(key + '#snapshot', snapshot(model), snap0,
               ['oracle:inputs-unchanged', 'evaluators:several'], inputs,
               False)
@@ -151,7 +187,7 @@ HEAP_SCHEDULES = ('round-robin', 'single-cell', 'two-evaluators',
 def heap_run(spec, schedule, n):
     """Returns [(evaluations, live objects, traced bytes)] at doublings."""
     model = models.build(spec, lib)
-    cells = list(spec.all_cells)
+    cells = list(spec.eval_cells)
     evs = [lib.Evaluator(model), lib.Evaluator(model)]
     top = spec.formulas[-1]
 
@@ -227,7 +263,7 @@ def plan(tier):
     shards = []
     for f in models.ALL_C05:
         spec = f()
-        cells = spec.all_cells
+        cells = spec.eval_cells
         for first in range(len(cells)):
             shards.append({'model': spec.name, 'kind': 'seq', 'first': first,
                            'len': SEQ_LEN[tier]})
@@ -239,14 +275,17 @@ def plan(tier):
                 shards.append({'model': spec.name, 'kind': 'multi',
                                'first': [e, first], 'len': mlen})
         for sch in HEAP_SCHEDULES:
+            n = HEAP_N[tier]
+            if spec.name == 'longrange':       # 110 evaluations per evaluate
+                n //= 8
             shards.append({'model': spec.name, 'kind': 'heap',
-                           'schedule': sch, 'n': HEAP_N[tier], 'weight': 10})
+                           'schedule': sch, 'n': n, 'weight': 10})
     return shards
 
 
 def run_shard(shard, ctx):
     spec = models.by_name(shard['model'])
-    cells = spec.all_cells
+    cells = spec.eval_cells
     if shard['kind'] == 'seq':
         first = cells[shard['first']]
         for n in range(0, shard['len']):
